@@ -146,6 +146,64 @@ def run(chk):
                    key="layoutorder|%s" % fn.name.replace("asmjit::", ""))
     chk.floor(R5 + ":loops", nl, 2)
 
+    # ------------------------------------------------------------------ C10.e' the running offset advances by the section's real size
+    R5b = "R-LAYOUT-ADVANCE"
+    chk.rule(R5b, "in every such layout loop the running offset (the local that is aligned with align_up) is advanced by the section's "
+                  "real_size() - directly or through a local initialised from it - and by nothing else: flatten() and code_size() reserve "
+                  "max(virtual, buffer) bytes for every section")
+    nadv = 0
+    for fn in cfg.load_functions(fall):
+        for i, x in fn.ex.items():
+            if x["k"] != "s:CXXForRangeStmt":
+                continue
+            body = set(fn.walk(i))
+            calls_in = {fn.e(j).get("cn") for j in body if fn.e(j)["k"] == "mcall"}
+            if not ({"real_size", "alignment"} <= calls_in):
+                continue
+            # the running offset: first argument of align_up inside the loop
+            off = set()
+            for j in body:
+                y = fn.e(j)
+                if y["k"] in ("call", "mcall") and y.get("cn") == "align_up" and y.get("args"):
+                    r0 = fn.e(fn.strip(y["args"][0]))
+                    if r0 and r0["k"] == "ref" and "did" in r0:
+                        off.add(r0["did"])
+            rs_locals = set()
+            for j in body:
+                y = fn.e(j)
+                if y["k"] == "decl":
+                    for v in y["vars"]:
+                        if v.get("init") and fn.e(fn.strip(v["init"])) and fn.e(fn.strip(v["init"])).get("cn") == "real_size":
+                            rs_locals.add(v["did"])
+
+            def is_real_size(e):
+                y = fn.e(fn.strip(e))
+                return y is not None and ((y["k"] == "mcall" and y.get("cn") == "real_size") or (y["k"] == "ref" and y.get("did") in rs_locals))
+            for j in sorted(body):
+                y = fn.e(j)
+                if y["k"] != "binop":
+                    continue
+                l = fn.e(fn.strip(y["lhs"]))
+                if not (l and l["k"] == "ref" and l.get("did") in off):
+                    continue
+                adv = None
+                if y["op"] == "+=":
+                    adv = y["rhs"]
+                elif y["op"] == "=":
+                    r = fn.e(fn.strip(y["rhs"]))
+                    if r and r["k"] in ("call", "mcall") and r.get("cn") == "add_overflow" and len(r.get("args", [])) >= 2:
+                        adv = r["args"][1]
+                    elif r and r["k"] == "binop" and r["op"] == "+":
+                        adv = r["rhs"] if fn.e(fn.strip(r["lhs"])) and fn.e(fn.strip(r["lhs"])).get("did") in off else r["lhs"]
+                if adv is None:
+                    continue
+                nadv += 1
+                chk.ob(R5b, "%s|%s" % (fn.name.replace("asmjit::", ""), " ".join(fn.text(j).split())[:50]), is_real_size(adv), loc=fn.loc(j),
+                       detail="`%s` advances the layout offset by `%s`, not by the section's real_size(): a section whose virtual size exceeds its "
+                              "buffer is overlapped by the next one" % (" ".join(fn.text(j).split())[:70], " ".join(fn.text(adv).split())[:40]),
+                       key="layoutadvance|%s" % fn.name.replace("asmjit::", ""))
+    chk.floor(R5b + ":advances", nadv, 2)
+
     # ------------------------------------------------------------------ C10.f real_size() covers both sizes
     R6 = "R-REAL-SIZE-MAX"
     chk.rule(R6, "Section::real_size() equals max(virtual size, buffer size) for every combination of the two (accessor expression folded over "
